@@ -154,6 +154,20 @@ func TestC05CrashImages(t *testing.T) {
 		keys := map[uint32]ref.Key{}
 		next := uint32(0)
 		t.Repeat(map[string]func(*rapid.T){
+			"registerAgain": func(t *rapid.T) {
+				// a repeated registration (the same key again, or another one, both
+				// signed by the temporary key) changes nothing - and must not open a
+				// window in which the key file is gone
+				k := gca
+				what := "register again (same key)"
+				if rapid.Bool().Draw(t, "otherKey") {
+					k = keyFor("c05-other-gca")
+					what = "register again (other key)"
+				}
+				begin(what)
+				s.register(k, temp, false)
+				end()
+			},
 			"authorize": func(t *rapid.T) {
 				live := s.M.DeviceIDs()
 				kind := rapid.SampledFrom([]string{"new", "new", "duplicate", "conflict"}).Draw(t, "kind")
